@@ -43,7 +43,7 @@ theorem quantizeOp_eq (c : Ctx) (x : Dec) (hx : x.form = .finite) (e : Int) :
   rw [if_neg (by simp)]
 
 theorem quantize_main (c : Ctx) (hc : c.WFq) (x : Dec) (hx : x.form = .finite) (e : Int)
-    (he : -100000 ≤ e ∧ e ≤ 100000) (hgap : x.exp - e ≤ 100000)
+    (he : -100000 ≤ e ∧ e ≤ 100000) (hgap : x.coeff = 0 ∨ x.exp - e ≤ 100000)
     (hgap2 : (ndigits x.coeff : Int) < e - x.exp ∨ e - x.exp < 100000 ∨
       (e - x.exp = 100000 ∧ ndigits (quantSpec c x e).1 ≤ ndigits (x.coeff / 10 ^ 100000)))
     (hprec : c.prec ≤ 100001 ∨ ndigits (quantSpec c x e).1 ≤ 100001) :
@@ -121,10 +121,12 @@ Counterexamples (checked with #eval, see scratch/Cex.lean):
       (Round's `setExponent(…, -100000, 100001)`) raises SystemOverflow and Quantize returns NaN/InvalidOperation.
   (b) x = 10^149999·10^-100000, e = 50000: the specification gives 0·10^50000, the model's Round hits
       `diff > MaxExponent` and Quantize returns NaN/InvalidOperation.
+Since the repair of finding F6 (a zero coefficient is never rescaled) the hypothesis `hgap` of the variants below
+is `x.coeff = 0 ∨ x.exp - e ≤ 100000`: zeros are covered whatever the distance between the exponents.
 The variant below adds the hypothesis `hgap2`: the number of discarded digits `e - x.exp` is below 100000,
 or all digits are discarded, or it is exactly 100000 and rounding up does not carry into a new digit. -/
 theorem C09_quantize_partial (c : Ctx) (hc : c.WF) (x : Dec) (hx : x.form = .finite) (hxw : x.WF) (e : Int)
-    (he : -100000 ≤ e ∧ e ≤ 100000) (hgap : x.exp - e ≤ 100000)
+    (he : -100000 ≤ e ∧ e ≤ 100000) (hgap : x.coeff = 0 ∨ x.exp - e ≤ 100000)
     (hgap2 : (ndigits x.coeff : Int) < e - x.exp ∨ e - x.exp < 100000 ∨
       (e - x.exp = 100000 ∧ ndigits (quantSpec c x e).1 ≤ ndigits (x.coeff / 10 ^ 100000))) :
     let o := quantizeOp c x e
@@ -157,7 +159,7 @@ theorem C09_quantize_partial (c : Ctx) (hc : c.WF) (x : Dec) (hx : x.form = .fin
    The variant below adds `hprec`: Precision ≤ 100001, or the result has at most 100001 digits.  Everything
    about `prec` versus `emax` is unrestricted. -/
 theorem C09_quantize_allctx_partial (c : Ctx) (hc : c.WFq) (x : Dec) (hx : x.form = .finite) (hxw : x.WF)
-    (e : Int) (he : -100000 ≤ e ∧ e ≤ 100000) (hgap : x.exp - e ≤ 100000)
+    (e : Int) (he : -100000 ≤ e ∧ e ≤ 100000) (hgap : x.coeff = 0 ∨ x.exp - e ≤ 100000)
     (hgap2 : (ndigits x.coeff : Int) < e - x.exp ∨ e - x.exp < 100000 ∨
       (e - x.exp = 100000 ∧ ndigits (quantSpec c x e).1 ≤ ndigits (x.coeff / 10 ^ 100000)))
     (hprec : c.prec ≤ 100001 ∨ ndigits (quantSpec c x e).1 ≤ 100001) :
@@ -184,7 +186,7 @@ theorem C09_quantize_allctx_partial (c : Ctx) (hc : c.WFq) (x : Dec) (hx : x.for
 /-- the requested `C09_quantize_allctx` statement, for every context with `Precision ≤ 100001` (in particular every
 context with `Precision > MaxExponent + 1`, which the `WF` version excludes) -/
 theorem C09_quantize_allctx_prec (c : Ctx) (hc : c.WFq) (hp : c.prec ≤ 100001) (x : Dec) (hx : x.form = .finite)
-    (hxw : x.WF) (e : Int) (he : -100000 ≤ e ∧ e ≤ 100000) (hgap : x.exp - e ≤ 100000)
+    (hxw : x.WF) (e : Int) (he : -100000 ≤ e ∧ e ≤ 100000) (hgap : x.coeff = 0 ∨ x.exp - e ≤ 100000)
     (hgap2 : (ndigits x.coeff : Int) < e - x.exp ∨ e - x.exp < 100000 ∨
       (e - x.exp = 100000 ∧ ndigits (quantSpec c x e).1 ≤ ndigits (x.coeff / 10 ^ 100000))) :
     let o := quantizeOp c x e
@@ -225,6 +227,87 @@ theorem C09_quantize_syslimit (c : Ctx) (hc : c.WF) (x : Dec) (hx : x.form = .fi
   rw [ho]
   simp [invalidNaN]
 
+/-- Quantize of a zero (repair of finding F6: `quantize` no longer refuses a rescaling by more than 100000 digits
+before looking at the coefficient).  For ANY operand exponent and any requested exponent `e` with
+`Etiny ≤ e ≤ MaxExponent` (and within the package's limit `-100000 ≤ e`; `e ≤ 100000` follows from the context) the
+result is the zero at exponent `e` with the operand's sign and a nil error.  The only condition that can be raised is
+Rounded, and only when exactly one digit is dropped (`e = x.exp + 1`: the shifted frame then calls `Round` with
+precision 0 on the one-digit coefficient `0`). -/
+theorem C09_quantize_zero (c : Ctx) (hc : c.WFq) (x : Dec) (hx : x.form = .finite) (hz : x.coeff = 0) (e : Int)
+    (he1 : c.emin - (c.prec : Int) + 1 ≤ e) (he2 : e ≤ c.emax) (he3 : -100000 ≤ e) :
+    (quantizeOp c x e).d = { form := .finite, neg := x.neg, exp := e, coeff := 0 } ∧
+    (quantizeOp c x e).fl = (if e - x.exp = 1 then Cond.cRounded else {}) ∧
+    ((quantizeOp c x e).err = .none ∨ (e - x.exp = 1 ∧ (quantizeOp c x e).err = .trap)) := by
+  obtain ⟨c1, c0, c3, c4, c5⟩ := hc
+  have hn0 : ndigits 0 = 1 := by decide
+  have hq := quantizeCore_zero c x hx hz e he2
+  have hr := ctxRound_zero c c1 c3 c5 { x with exp := e } hx hz he1 he2 he3
+  rw [quantizeOp_eq c x hx e, if_neg (by omega), hq]
+  simp only [] at hr ⊢
+  rw [hz] at hr
+  rw [hz, hn0, if_neg (by omega), hr]
+  by_cases h1 : e - x.exp = 1
+  · simp only [h1, if_true]
+    have hfl : (Cond.cRounded ||| ({} : Cond)) = Cond.cRounded := by decide
+    rw [hfl, if_neg (by decide)]
+    refine ⟨by simp [finish, hx, hz], rfl, ?_⟩
+    simp only [finish, goError]
+    have : (Cond.cRounded.sysOverflow || Cond.cRounded.sysUnderflow) = false := by decide
+    rw [this]
+    simp only [Bool.false_eq_true, if_false]
+    by_cases ht : (Cond.cRounded &&& c.traps).any = true
+    · right; rw [if_pos ht]; exact ⟨trivial, rfl⟩
+    · left; rw [if_neg ht]
+  · simp only [h1, if_false]
+    have hfl : (({} : Cond) ||| ({} : Cond)) = {} := by decide
+    rw [hfl, if_neg (by decide)]
+    exact ⟨by simp [finish, hx, hz], rfl, Or.inl (by simp [finish, goError_zero])⟩
+
+/-- finding F6, repaired: a zero operand (any exponent — in particular any exponent within the package limits, however
+far from the requested one) and any requested exponent with `Etiny ≤ e ≤ MaxExponent` that does not drop exactly one
+digit: the model returns the zero with that exponent and the operand's sign, no condition and a nil error.
+`Quantize(0E+3878, -96125)` = `0E-96125` (example below); before the repair it was NaN + InvalidOperation. -/
+theorem C09_quantize_zero_far (c : Ctx) (hc : c.WFq) (x : Dec) (hx : x.form = .finite) (hz : x.coeff = 0) (e : Int)
+    (he1 : c.emin - (c.prec : Int) + 1 ≤ e) (he2 : e ≤ c.emax) (he3 : -100000 ≤ e) (hne : e - x.exp ≠ 1) :
+    quantizeOp c x e =
+      { d := { form := .finite, neg := x.neg, exp := e, coeff := 0 }, fl := {}, err := .none } := by
+  obtain ⟨k1, k2, k3⟩ := C09_quantize_zero c hc x hx hz e he1 he2 he3
+  rw [if_neg hne] at k2
+  have k3' : (quantizeOp c x e).err = .none := by
+    rcases k3 with h | ⟨h, _⟩
+    · exact h
+    · exact absurd h hne
+  have ha : (quantizeOp c x e).aux = 0 := by
+    rw [quantizeOp_eq c x hx e]
+    split
+    · rfl
+    · split
+      · rfl
+      · split <;> rfl
+  generalize quantizeOp c x e = o at k1 k2 k3' ha
+  cases o
+  simp only [] at k1 k2 k3' ha
+  simp [k1, k2, k3', ha]
+
+/-- the other half of the repair: a NON-zero coefficient that would have to be multiplied by more than `10^100000`
+still ends in NaN with InvalidOperation (the rescaled coefficient has more than 100001 digits, beyond every
+admissible precision; the model reaches the verdict through `quantize`'s SystemUnderflow exit). -/
+theorem C09_quantize_far_nonzero (c : Ctx) (x : Dec) (hx : x.form = .finite) (hnz : x.coeff ≠ 0) (e : Int)
+    (hfar : x.exp - e > 100000) :
+    quantizeOp c x e = invalidNaN c := by
+  have h1 : x.isZero = false := by simp [Dec.isZero, hnz]
+  have hq : quantizeCore c x e = (x, Cond.cSysUnderflow ||| Cond.cUnderflow) := by
+    unfold quantizeCore
+    simp only [h1, Bool.not_false, if_true]
+    rw [if_pos (by omega), if_pos (by simp only [MinExponent]; omega)]
+  rw [quantizeOp_eq c x hx e, hq]
+  simp only []
+  split
+  · rfl
+  · split
+    · rfl
+    · rw [if_pos (Or.inr (by simp [Cond.cUnderflow]))]
+
 /- ORIGINAL STATEMENT (false: counterexample (a) above, x = (10^100001 - 1)·10^-100000 — the model
    returns coefficient 1 with SystemOverflow instead of 10):
 theorem C09_rtie (c : Ctx) (hc : c.WF) (x : Dec) (hx : x.form = .finite) (hxw : x.WF)
@@ -252,7 +335,7 @@ theorem C09_rtie_partial (c : Ctx) (hc : c.WF) (x : Dec) (hx : x.form = .finite)
   intro o r
   obtain ⟨c1, c2, c3, c4, c5⟩ := hc
   obtain ⟨w1, w2, w3, w4⟩ := hxw
-  have key := quantizeCore_spec c x hx 0 (by omega) (by
+  have key := quantizeCore_spec c x hx 0 (Or.inr (by omega)) (by
     rcases hgap2 with h | h | h
     · left; omega
     · right; left; omega
@@ -355,6 +438,62 @@ theorem C09_floor (c : Ctx) (hc : c.WF) (x : Dec) (hx : x.form = .finite) (hexp 
       rw [addOp_one c hc true _ hf]
       simp
 
+/-- sign of zero (C08): a zero returned by Ceil carries the operand's sign (`Ceil(-0.05) = -0`, as
+round-to-integral under RoundCeiling gives) -/
+theorem C08_ceil_zero_sign (c : Ctx) (hc : c.WF) (x : Dec) (hx : x.form = .finite) (hexp : x.exp ≤ 0)
+    (hfit : ndigits (ceilInt x).natAbs ≤ c.prec) :
+    let o := ceilOp c x
+    o.d.coeff = 0 → o.d.neg = x.neg := by
+  intro o
+  obtain ⟨m1, m2⟩ := modf_spec x hx hexp
+  have ho : o = if (modf x).2.sign > 0 then addOp c (modf x).1 decOne false else { d := (modf x).1 } := by
+    simp only [o, ceilOp, toIntegralSpecials_finite c x hx]
+  rw [ho, m1, m2]
+  unfold ceilInt at hfit
+  simp only [] at hfit ⊢
+  generalize 10 ^ (-x.exp).toNat = p at *
+  by_cases hm : x.coeff % p = 0
+  · simp only [hm, if_true] at hfit ⊢
+    cases hn : x.neg <;> simp
+  · simp only [hm, if_false] at hfit ⊢
+    cases hn : x.neg
+    · simp only [hn] at hfit ⊢
+      rw [if_pos (by decide)]
+      have hf : ndigits (x.coeff / p + 1) ≤ c.prec := by
+        rw [if_neg (by decide), Int.natAbs_natCast] at hfit; exact hfit
+      rw [addOp_one c hc false _ hf]
+      simp
+    · simp
+
+/-- sign of zero (C08): a zero returned by Floor carries the operand's sign -/
+theorem C08_floor_zero_sign (c : Ctx) (hc : c.WF) (x : Dec) (hx : x.form = .finite) (hexp : x.exp ≤ 0)
+    (hfit : ndigits (floorInt x).natAbs ≤ c.prec) :
+    let o := floorOp c x
+    o.d.coeff = 0 → o.d.neg = x.neg := by
+  intro o
+  obtain ⟨m1, m2⟩ := modf_spec x hx hexp
+  have ho : o = if (modf x).2.sign < 0 then addOp c (modf x).1 decOne true else { d := (modf x).1 } := by
+    simp only [o, floorOp, toIntegralSpecials_finite c x hx]
+  rw [ho, m1, m2]
+  unfold floorInt at hfit
+  simp only [] at hfit ⊢
+  generalize 10 ^ (-x.exp).toNat = p at *
+  by_cases hm : x.coeff % p = 0
+  · simp only [hm, if_true] at hfit ⊢
+    cases hn : x.neg <;> simp
+  · simp only [hm, if_false] at hfit ⊢
+    cases hn : x.neg
+    · simp
+    · simp only [hn] at hfit ⊢
+      rw [if_pos (by decide)]
+      have hf : ndigits (x.coeff / p + 1) ≤ c.prec := by
+        rw [if_neg (by decide), Int.natAbs_neg, Int.natAbs_natCast] at hfit; exact hfit
+      rw [addOp_one c hc true _ hf]
+      simp
+
+example : (ceilOp { prec := 9, emax := 99, emin := -99, mode := .halfUp } { coeff := 5, exp := -2, neg := true }).d
+    = { coeff := 0, exp := 0, neg := true } := by decide
+
 /-- an integer-valued x (exp > 0) is returned unchanged by Ceil and Floor -/
 theorem C09_ceil_floor_int (c : Ctx) (x : Dec) (hx : x.form = .finite) (hexp : 0 < x.exp) :
     (ceilOp c x).d = x ∧ (floorOp c x).d = x ∧ (ceilOp c x).fl = {} ∧ (floorOp c x).fl = {} := by
@@ -366,6 +505,22 @@ example : (quantizeOp { prec := 9, emax := 99, emin := -99, mode := .up } { coef
     = { coeff := 1, exp := 0 } := by decide
 example : (quantizeOp { prec := 9, emax := 99, emin := 0, mode := .halfUp } { coeff := 7, exp := -1 } 0).d
     = { coeff := 1, exp := 0 } := by decide
+
+/-- finding F6 repaired: `Quantize(0E+3878, -96125)` is `0E-96125` with no condition (it was NaN + InvalidOperation);
+the same distance with the coefficient 1 is still NaN + InvalidOperation. -/
+example : quantizeOp { prec := 5, emax := 100000, emin := -100000, mode := .halfUp } { coeff := 0, exp := 3878 } (-96125)
+    = { d := { coeff := 0, exp := -96125 }, fl := {}, err := .none } := by decide
+example : quantizeOp { prec := 5, emax := 100000, emin := -100000, mode := .halfUp }
+      { coeff := 0, exp := 3878, neg := true } (-96125)
+    = { d := { coeff := 0, exp := -96125, neg := true }, fl := {}, err := .none } := by decide
+example : quantizeOp { prec := 5, emax := 100000, emin := -100000, mode := .halfUp } { coeff := 1, exp := 3878 } (-96125)
+    = invalidNaN { prec := 5, emax := 100000, emin := -100000, mode := .halfUp } := by decide
+/-- the one condition a zero can raise: exactly one digit dropped gives Rounded -/
+example : (quantizeOp { prec := 5, emax := 99, emin := -99, mode := .halfUp } { coeff := 0, exp := -5 } (-4)).fl
+    = Cond.cRounded := by decide
+/-- why `C09_quantize_zero` asks for `-100000 ≤ e`: with Etiny = -100004 the zero at -100001 is refused -/
+example : quantizeOp { prec := 5, emax := 100000, emin := -100000, mode := .halfUp } { coeff := 0, exp := 0 } (-100001)
+    = invalidNaN { prec := 5, emax := 100000, emin := -100000, mode := .halfUp } := by decide
 
 /-- non-vacuity of `C09_quantize_allctx`: Precision 9 > MaxExponent + 1 = 4; 123.4567891 quantized to
 exponent -5 is 123.45679 (8 digits, adjusted exponent 2 ≤ 3); the old model returned NaN here. -/
@@ -382,6 +537,9 @@ end Apd.Props
 #print axioms Apd.Props.C09_quantize_allctx_prec
 #print axioms Apd.Props.C09_quantize_partial
 #print axioms Apd.Props.C09_quantize_syslimit
+#print axioms Apd.Props.C09_quantize_zero
+#print axioms Apd.Props.C09_quantize_zero_far
+#print axioms Apd.Props.C09_quantize_far_nonzero
 #print axioms Apd.Props.C09_rtie_partial
 #print axioms Apd.Props.C09_rtie_syslimit
 #print axioms Apd.Props.C09_rtiv
